@@ -50,6 +50,19 @@ type Body struct {
 	Wanted bool
 	// Hist is a rolling hash of every Read result (state keys of the scheduler search).
 	Hist uint64
+	// OnEOF runs once, just before the first Read that reports io.EOF returns (net/http fills
+	// Request.Trailer at that moment).
+	OnEOF   func()
+	eofSeen bool
+}
+
+func (b *Body) eof() {
+	if !b.eofSeen {
+		b.eofSeen = true
+		if b.OnEOF != nil {
+			b.OnEOF()
+		}
+	}
 }
 
 func mix(h uint64, vals ...int) uint64 {
@@ -102,6 +115,7 @@ func (b *Body) Read(p []byte) (int, error) {
 		if b.FailAt >= 0 && b.off >= b.FailAt {
 			return 0, b.FailErr
 		}
+		b.eof()
 		return 0, io.EOF
 	}
 	end := limit
@@ -122,6 +136,7 @@ func (b *Body) Read(p []byte) (int, error) {
 			return n, nil
 		}
 		if b.EOFWithData {
+			b.eof()
 			return n, io.EOF
 		}
 	}
@@ -359,6 +374,10 @@ type ReqSpec struct {
 	Body          *Body
 	NoBody        bool // use http.NoBody (GET without body)
 	Host          string
+	// Trailer: request trailers. As net/http's servers do, the announced keys are present in
+	// Request.Trailer (with nil values) from the start, the "Trailer" header itself is not in
+	// Request.Header, and the values appear in that same map once the body has been read to EOF.
+	Trailer http.Header
 }
 
 // Build turns the spec into an *http.Request the way net/http's server would.
@@ -413,6 +432,18 @@ func (s *ReqSpec) Build(ctx context.Context) (*http.Request, error) {
 			}
 		}
 	}
+	if len(s.Trailer) > 0 && s.Body != nil && !s.NoBody {
+		req.Trailer = http.Header{}
+		for k := range s.Trailer {
+			req.Trailer[k] = nil
+		}
+		tr, sent := req.Trailer, s.Trailer
+		s.Body.OnEOF = func() {
+			for k, v := range sent {
+				tr[k] = append([]string(nil), v...)
+			}
+		}
+	}
 	return req.WithContext(ctx), nil
 }
 
@@ -438,6 +469,7 @@ type Seen struct {
 	ReadErr       string
 	ReadSizes     []int
 	Ctx           context.Context
+	req           *http.Request
 }
 
 // Capture snapshots the request line and headers handed to a handler.
@@ -448,7 +480,16 @@ func Capture(r *http.Request) *Seen {
 		Proto: r.Proto, ProtoMajor: r.ProtoMajor, ProtoMinor: r.ProtoMinor,
 		Header: r.Header.Clone(), Host: r.Host, ContentLength: r.ContentLength,
 		TransferEnc: append([]string(nil), r.TransferEncoding...), Ctx: r.Context(),
+		req: r,
 	}
+}
+
+// TrailerAfterBody is Request.Trailer as the handler sees it now (call after ReadBody).
+func (s *Seen) TrailerAfterBody() http.Header {
+	if s.req == nil || s.req.Trailer == nil {
+		return nil
+	}
+	return s.req.Trailer.Clone()
 }
 
 // ReadBody reads r.Body to the end with the given buffer sizes (cycled; a single
